@@ -31,6 +31,7 @@ func factsMore(x *extractor) {
 	x.factsLifeRelease()
 	x.factsSock()
 	x.factsCrash()
+	x.factsStream()
 }
 
 const netceptorGo = "pkg/netceptor/netceptor.go"
@@ -2108,4 +2109,114 @@ func (x *extractor) factsCrash() {
 		reg = strings.Contains(x.str(fd.Body), "w.scanForUnits()")
 	}
 	x.set("crash_register_rescans", reg)
+}
+
+// ---------------------------------------------------------------- C03: streams
+
+func (x *extractor) factsStream() {
+	const br, cn, pcf = "pkg/utils/bridge.go", "pkg/netceptor/conn.go", "pkg/netceptor/packetconn.go"
+	loop := "unknown"
+	if fd := x.fn(br, "", "bridgeHalf"); fd != nil {
+		ast.Inspect(fd.Body, func(n ast.Node) bool {
+			fs, ok := n.(*ast.ForStmt)
+			if !ok || loop != "unknown" {
+				return true
+			}
+			var parts []string
+			for _, s := range fs.Body.List {
+				switch v := s.(type) {
+				case *ast.AssignStmt:
+					if strings.Contains(x.str(v), "c1.Read(buf)") {
+						parts = append(parts, "read")
+					}
+				case *ast.IfStmt:
+					c := x.str(v.Cond)
+					b := x.str(v.Body)
+					switch {
+					case c == "err != nil":
+						d := "err:"
+						if strings.Contains(b, "shouldClose = true") {
+							d += "shouldClose"
+						}
+						if strings.Contains(b, "break") || strings.Contains(b, "return") {
+							d += ",leaves-loop"
+						}
+						parts = append(parts, d)
+					case c == "n > 0":
+						d := "n>0:"
+						if strings.Contains(b, "c2.Write(buf[:n])") {
+							d += "write(buf[:n])"
+						}
+						if strings.Contains(b, "wn != n") {
+							d += ",short->shouldClose"
+						}
+						parts = append(parts, d)
+					case c == "shouldClose":
+						d := "shouldClose:"
+						if strings.Contains(b, "c2.Close()") {
+							d += "close(c2)"
+						}
+						if strings.Contains(b, "return") {
+							d += ",return"
+						}
+						parts = append(parts, d)
+					default:
+						parts = append(parts, "if "+c)
+					}
+				default:
+					parts = append(parts, x.str(s))
+				}
+			}
+			loop = strings.Join(parts, ";")
+			return false
+		})
+	}
+	x.set("bridge_loop", loop)
+	both := "unknown"
+	if fd := x.fn(br, "", "BridgeConns"); fd != nil {
+		b := x.str(fd.Body)
+		if strings.Contains(b, "go bridgeHalf(c1, c1Name, c2, c2Name, doneChan, logger)") && strings.Contains(b, "go bridgeHalf(c2, c2Name, c1, c1Name, doneChan, logger)") &&
+			strings.Count(b, "<-doneChan") == 2 {
+			both = "two-halves;wait-both"
+		}
+	}
+	x.set("bridge_conns", both)
+	// the stream end points
+	first := "unknown"
+	if d, a := x.fn(cn, "Netceptor", "DialContext"), x.fn(cn, "Listener", "acceptLoop"); d != nil && a != nil {
+		ds, as := x.str(d.Body), x.str(a.Body)
+		var parts []string
+		if strings.Contains(ds, "qs.Write([]byte{0})") {
+			parts = append(parts, "dial:write(0)")
+		}
+		if strings.Contains(as, "buf := make([]byte, 1)") && strings.Contains(as, "n, err := qs.Read(buf)") {
+			parts = append(parts, "accept:read(1)")
+		}
+		if strings.Contains(as, "if n == 1 && err == io.EOF { // the dialler closed its writing side right after the initial byte: // the byte is there, the end of the stream is the application's to see err = nil }") ||
+			strings.Contains(as, "if n == 1 && err == io.EOF {") {
+			parts = append(parts, "byte-with-eof:accepted")
+		}
+		if strings.Contains(as, "if n != 1 || buf[0] != 0") {
+			parts = append(parts, "check(n==1,byte==0)")
+		}
+		first = strings.Join(parts, ";")
+	}
+	x.set("stream_first_byte", first)
+	cl := "unknown"
+	if c1, c2 := x.fn(cn, "Conn", "Close"), x.fn(cn, "Conn", "CloseConnection"); c1 != nil && c2 != nil {
+		var parts []string
+		if strings.Contains(x.str(c1.Body), "return c.qs.Close()") {
+			parts = append(parts, "Close:stream-write-side")
+		}
+		if strings.Contains(x.str(c2.Body), `return c.qc.CloseWithError(0, "normal close")`) {
+			parts = append(parts, "CloseConnection:connection")
+		}
+		cl = strings.Join(parts, ";")
+	}
+	x.set("stream_close", cl)
+	cp := "unknown"
+	if fd := x.fn(pcf, "PacketConn", "ReadFrom"); fd != nil && strings.Contains(x.str(fd.Body), "nCopied := copy(p, m.Data)") {
+		cp = "copy(p, m.Data)"
+	}
+	x.set("stream_readfrom_copy", cp)
 }
